@@ -423,6 +423,84 @@ class _BytesIOShim:
         return self.stream.tell()
 
 
+class _RawWire(io.RawIOBase):
+    """Raw (unbuffered) byte source for a real io.BufferedReader; counts the reads it serves."""
+
+    def __init__(self, wire: bytes):
+        super().__init__()
+        self._wire = bytes(wire)
+        self._pos = 0
+        self.raw_reads = 0
+
+    def readable(self):
+        return True
+
+    def seekable(self):
+        return True
+
+    def seek(self, offset, whence=0):
+        base = {0: 0, 1: self._pos, 2: len(self._wire)}[whence]
+        self._pos = min(max(base + offset, 0), len(self._wire))
+        return self._pos
+
+    def tell(self):
+        return self._pos
+
+    def readinto(self, b):
+        self.raw_reads += 1
+        if self.raw_reads > 8 * len(self._wire) + 256:
+            raise SimBudgetExceeded("raw reads without end")
+        n = min(len(b), len(self._wire) - self._pos)
+        b[:n] = self._wire[self._pos : self._pos + n]
+        self._pos += n
+        return n
+
+
+def make_buffered(wire: bytes, buffer_size: int):
+    """An EXACT io.BufferedReader (peek, read1, tell, seek ...) as open(path, 'rb') returns, with a chosen buffer size."""
+    raw = _RawWire(wire)
+    return _BytesIOShim(io.BufferedReader(raw, buffer_size=max(int(buffer_size), 1)), len(wire))
+
+
+class SimDatagramSocket(SimSocket):
+    """
+    Datagram semantics (UDP, AF_UNIX SOCK_DGRAM): every arrival segment is one datagram; recv(n)
+    returns at most n bytes of the NEXT datagram and discards the rest of it.
+    """
+
+    def recv(self, bufsize, flags=0):
+        if self.closed:
+            import errno  # pylint: disable=import-outside-toplevel
+
+            raise OSError(errno.EBADF, "Bad file descriptor")
+        self.budget.tick(self._pos >= len(self._wire))
+        self.now += self._host_delay
+        idx = getattr(self, "_dg", 0)
+        if idx >= len(self._arrivals):
+            self.end_reports += 1
+            if self._end == "close":
+                self.ledger.append(("recv", self._pos, bufsize, 0))
+                return b""
+            self.now += self._timeout if self._timeout is not None else 1.0
+            self.ledger.append(("recv", self._pos, bufsize, "timeout"))
+            raise TimeoutError("simulated timeout (peer silent)")
+        t, end = self._arrivals[idx]
+        start = self._arrivals[idx - 1][1] if idx else 0
+        if t > self.now:
+            if self._timeout is not None and t - self.now > self._timeout:
+                self.now += self._timeout
+                self.midstream_timeouts += 1
+                self.ledger.append(("recv", self._pos, bufsize, "timeout"))
+                raise TimeoutError("simulated timeout (stall)")
+            self.now = t
+        self._dg = idx + 1
+        data = self._wire[start : min(end, start + bufsize)]
+        self.dropped_tail = getattr(self, "dropped_tail", 0) + (end - start - len(data))
+        self._pos = end
+        self.ledger.append(("recv", start, bufsize, len(data)))
+        return data
+
+
 def fit_segments(segs, n: int):
     """Clip or extend an arrival schedule so that it covers exactly n bytes."""
     out, off = [], 0
@@ -455,6 +533,13 @@ def make_transport(wire: bytes, tr: dict):
         return PipeFile(wire)
     if kind == "bytesio":
         return PlainBytesIO.make(wire)
+    if kind == "buffered":
+        return make_buffered(wire, tr.get("buffer_size", 8192))
+    if kind == "dgram":
+        sched = dict(tr)
+        if sched.get("segments") is not None:
+            sched["segments"] = fit_segments(sched["segments"], len(wire))
+        return SimDatagramSocket(wire, sched)
     if kind == "tlssocket":
         sched = dict(tr)
         if sched.get("segments") is not None:
